@@ -115,6 +115,22 @@ func buildWorker(race bool) (string, error) {
 		out += "-race"
 		args = append(args, "-race")
 	}
+	if alt := os.Getenv("VERIF_REPO_DIR"); alt != "" {
+		// development aid (seeded-change runs): build against a scratch copy of the repository instead of /repo,
+		// so that /repo itself is never touched; registered checks never set this
+		b, err := os.ReadFile(filepath.Join(vd, "harness", "go.mod"))
+		if err != nil {
+			return "", err
+		}
+		tag := fmt.Sprintf("%x", hash64(alt))
+		mod := filepath.Join(vd, ".work", "alt-"+tag+".mod")
+		os.WriteFile(mod, []byte(strings.Replace(string(b), "=> /repo", "=> "+alt, 1)), 0o644)
+		if sum, err := os.ReadFile(filepath.Join(vd, "harness", "go.sum")); err == nil {
+			os.WriteFile(filepath.Join(vd, ".work", "alt-"+tag+".sum"), sum, 0o644)
+		}
+		args = append(args, "-modfile="+mod)
+		out += "-alt-" + tag
+	}
 	args = append(args, "-o", out, "./cmd/vcheck")
 	cmd := exec.Command("go", args...)
 	cmd.Dir = filepath.Join(vd, "harness")
@@ -291,7 +307,7 @@ func RunCheck(propID, tier string) int {
 	}
 	seed := envSeed()
 	vd := verifDir()
-	work := filepath.Join(vd, ".work", propID+"-"+tier)
+	work := filepath.Join(vd, ".work", propID+"-"+tier+os.Getenv("VERIF_WORK_SUFFIX"))
 	os.RemoveAll(work)
 	if err := os.MkdirAll(work, 0o755); err != nil {
 		fmt.Println("cannot create work dir:", err)
@@ -581,7 +597,12 @@ func conclude(p *Property, m *Merged, nsh int, t0 time.Time) int {
 	}
 	os.MkdirAll(filepath.Join(vd, "evidence"), 0o755)
 	b, _ := json.MarshalIndent(ev, "", " ")
-	os.WriteFile(filepath.Join(vd, "evidence", p.ID+".json"), b, 0o644)
+	if sfx := os.Getenv("VERIF_WORK_SUFFIX"); sfx != "" {
+		// seeded-change run: never overwrite the evidence of the real tree
+		os.WriteFile(filepath.Join(vd, ".work", p.ID+"-evidence"+sfx+".json"), b, 0o644)
+	} else {
+		os.WriteFile(filepath.Join(vd, "evidence", p.ID+".json"), b, 0o644)
+	}
 
 	fmt.Printf("SUMMARY property=%s tier=%s seed=%d cases=%d distinct(%s)=%d violations=%d known=%d wall=%.1fs\n",
 		p.ID, m.Tier, m.Seed, m.Counts["cases"], nt, m.DistinctN(nt), nviol, len(knownSeen), time.Since(t0).Seconds())
